@@ -405,7 +405,7 @@ class C08(core.Check):
         'define-inside-block-that-tests-it', 'effect:define', 'effect:label', 'effect:constant', 'effect:create_memzone',
         'effect:mute', 'effect:include', 'effect:origin', 'effect:unmute-inside-branch-while-muted', 'if:bare-literal', 'if:bare-symbol', 'if:text-comparison', 'if:op==', 'if:op!=',
         'if:op>', 'if:op>=', 'if:op<', 'if:op<=', 'ctx:unsel:nested-in-unselected', 'ctx:unsel:earlier-branch-taken',
-        'ctx:unsel:condition-false', 'numeric-vs-text-disagree', 'stray:else', 'stray:elif', 'stray:endif',
+        'ctx:unsel:condition-false', 'numeric-vs-text-disagree', 'stray:else', 'stray:elif', 'stray:endif', 'stray:in-included-file',
         'source:cli', 'source:isa']}
 
     def finish(self, g, rng, extra_tags=()):
@@ -493,6 +493,21 @@ class C08(core.Check):
                 elif t.startswith('#ifdef'):
                     g.items.append({'k': 'ifdef', 'name': t.split()[1]})
             yield self.finish(g, rng, ['stray:' + kind])
+        # a stray directive inside an included file must be rejected even when the includer has a chain open
+        inc_strays = [
+            ('else', '#if 1\n.byte 1\n#include "s.asm"\n.byte 2\n#endif\n', '.byte 3\n#else\n.byte 4\n'),
+            ('endif', '#ifdef NOPE\n.byte 1\n#else\n#include "s.asm"\n.byte 2\n#endif\n.byte 5\n#endif\n', '.byte 3\n#endif\n'),
+            ('elif', '#define QQ 1\n#if QQ == 1\n#include "s.asm"\n#endif\n', '.byte 3\n#elif QQ == 1\n.byte 4\n'),
+            ('endif', '.byte 1\n#if 1\n#include "s.asm"\n.byte 2\n', '.byte 3\n#endif\n'),
+            ('else', '#if 0\n.byte 1\n#else\n#include "s.asm"\n#endif\n', '#else\n.byte 4\n'),
+        ]
+        isa0 = gen_prog.layout_isa(16)
+        fn0, text0 = isamod.render_isa(isa0, 'json')
+        for k, (kind, main_src, inc_src) in enumerate(inc_strays * 2):
+            yield {'runs': [{'files': {fn0: text0, 'p.asm': main_src, 's.asm': inc_src},
+                             'argv': ['compile', '-c', fn0, 'p.asm', '-o', 'out.bin'], 'probes': ['steps', 'cond'], 'step_limit': 500000}],
+                   'meta': {'model': {'kind': 'REJECT', 'why': 'stray #' + kind + ' in an included file'}, 'markers': {}},
+                   'tags': ['stray:' + kind, 'stray:in-included-file', 'expect:REJECT']}
         if tier == 'thorough':
             yield from self.sweep()
 
